@@ -1005,8 +1005,9 @@ class SpaceTimeVariogram:
         # if force, force a clean preprocessing
         self.preprocessing(force=force)
 
-        # load the fitting data
-        xx, yy = self.meshbins
+        # load the fitting data. The experimental variogram is ordered
+        # space-major (time lags change fastest), the lag grid has to match
+        xx, yy = np.meshgrid(self.xbins, self.tbins, indexing='ij')
         z = self.experimental
 
         # remove NaN values
